@@ -37,6 +37,7 @@ def WFES (c : Ctx) : CExpr → Bool
   | .post _ _ _ => false
   | .call _ _ _ _ => false
   | .stmtexpr _ _ _ => false
+  | .seqexpr _ _ _ _ _ => false
 def WFESs (c : Ctx) : List CExpr → List CT → Bool
   | [], _ => true
   | _ :: _, [] => true
